@@ -278,16 +278,18 @@ Definition filter_tickets (e : env) (b : nat) (w : world) : res (world * N) :=
   do fr <- load_filter_tickets_operation s;
   let (first0, removed0) := fr in
   let started := if first0 =? 1 then true else fl_started s in
-  do lr <- run_while b (filter_body last) (s, first0, removed0);
+  (* the saved operation is consumed here and the start flag set: nothing reads either before the
+     endpoint writes them again (completion clears, interruption saves, failure reverts) *)
+  let s0 := s <| op := OpNone |> <| fl_started := started |> in
+  do lr <- run_while b (filter_body last) (s0, first0, removed0);
   let '(s1, first1, removed1, completed, _) := lr in
   if completed then
     do new_last <- usub last removed1;
     let nrw := if new_last <? nr_winning s1 then new_last else nr_winning s1 in
-    let s2 := s1 <| op := OpNone |> <| nr_winning := nrw |> <| last_ticket_id := new_last |>
-                 <| fl_started := started |> <| fl_filtered := true |> in
+    let s2 := s1 <| nr_winning := nrw |> <| last_ticket_id := new_last |> <| fl_filtered := true |> in
     Ok (emit (set_st w s2) EvFilterDone (event_hdr e ++ [new_last]), 0)
   else
-    Ok (set_st w (s1 <| op := OpFilter first1 removed1 |> <| fl_started := started |>), 1).
+    Ok (set_st w (s1 <| op := OpFilter first1 removed1 |>), 1).
 
 (** ** [selectWinners] *)
 Definition shuffle_single_ticket (w : world) (r : rng) (cur last : N) : rng * world :=
@@ -323,11 +325,12 @@ Definition select_winners (e : env) (b : nat) (w : world) : res (world * N) :=
   let nrw := nr_winning s in
   let last := last_ticket_id s in
   do l <- load_select_winners_operation w;
-  let '(r0, pos0, w0) := l in
+  let '(r0, pos0, wl) := l in
+  let w0 := set_st wl (st wl <| op := OpNone |>) in
   do lr <- run_while b (select_body nrw last) (w0, r0, pos0);
   let '(w1, r1, pos1, completed, _) := lr in
   if completed then
-    let s2 := st w1 <| op := OpNone |> <| fl_selected := true |> <| claimable_payment := price (st w1) * nrw |> in
+    let s2 := st w1 <| fl_selected := true |> <| claimable_payment := price (st w1) * nrw |> in
     Ok (emit (set_st w1 s2) EvSelectDone (event_hdr e ++ [nrw]), 0)
   else
     Ok (set_st w1 (st w1 <| op := OpSelect r1 pos1 |>), 1).
